@@ -7,9 +7,19 @@
    floats = the initial contents of the objects, then the payloads of the steps in order;
    codes = the steps: 0 b (fill, 9n floats) | 1 b (rotate, 9 floats) | 2 b p_1..p_n (permute) |
    3 b (row factors, 3n floats) | 4 b src (copy) | 5 b r (P,G,R) | 6 b r (Bingham) |
-   7 b r1 r2 (coaxial); output = the matrices handed to LAPACK, in call order. *)
+   7 b r1 r2 (coaxial); output = the matrices handed to LAPACK, in call order.
+   run_fse_session: a finite_strain call history on `nb` live 3x3 objects (Model_diag_fse_session); floats = the
+   initial contents, then the payloads in order; codes: 0 b (F[...] = G, 9 floats) | 1 b (F[...] = F @ Q, 9) |
+   2 b (F[...] = Q @ F, 9) | 3 b (F *= c, 1) | 4 b (F[...] = F.T) | 5 b src (copy) | 6 b (finite_strain);
+   output = the matrices handed to LAPACK, in call order.
+   run_smallest_angle: 6 floats (vector, axis) or 9 (vector, axis, plane normal).
+   run_gen_*: the definitions of gen/Gen_diag.v (REGENERATED from the source, n = 1, 2, 3 grains) run on
+   the same inputs; their LAPACK parameter is the constant function returning the recorded output
+   (eigenvalues; V row-major as SciPy returns it), for coaxial_index keyed on the generated scatter
+   matrix of the first axis. *)
 From Coq Require Import ZArith List Bool.
-From PV Require Import Num Model_diag Model_diag_session.
+From PV Require Import Num Model_diag Model_diag_session Model_diag_fse_session.
+From PV.gen Require Import Gen_diag.
 Import ListNotations.
 
 Section Entry.
@@ -135,6 +145,148 @@ Section Entry.
   Definition run_fse_angle (xs : list F) : res (list F) :=
     match xs with
     | [s] => Ok [angle_fse_simpleshear s]
+    | _ => Err OtherError
+    end.
+  Fixpoint fstore_of (nb : nat) (l : list F) : @fstore F :=
+    match nb with
+    | O => []
+    | S k => m3_of l :: fstore_of k (skipn 9 l)
+    end.
+
+  Fixpoint parse_fops (fuel : nat) (codes : list nat) (xs : list F) : res (list (@fop F)) :=
+    match codes with
+    | [] => Ok []
+    | k :: t =>
+      match fuel with
+      | O => Err OtherError
+      | S fuel' =>
+        let next o t' xs' := bind (parse_fops fuel' t' xs') (fun l => Ok (o :: l)) in
+        match k, t with
+        | 0%nat, b :: t' => next (FSet b (m3_of xs)) t' (skipn 9 xs)
+        | 1%nat, b :: t' => next (FRight b (m3_of xs)) t' (skipn 9 xs)
+        | 2%nat, b :: t' => next (FLeft b (m3_of xs)) t' (skipn 9 xs)
+        | 3%nat, b :: t' => next (FScale b (nth 0 xs d0)) t' (skipn 1 xs)
+        | 4%nat, b :: t' => next (FTransp b) t' xs
+        | 5%nat, b :: src :: t' => next (FCopy b src) t' xs
+        | 6%nat, b :: t' => next (FStrain b) t' xs
+        | _, _ => Err OtherError
+        end
+      end
+    end.
+
+  Definition run_fse_session (memo : bool) (nb : nat) (codes : list nat) (xs : list F) : res (list F) :=
+    match parse_fops (length codes) codes (skipn (9 * nb) xs) with
+    | Err e => Err e
+    | Ok h => Ok (flat_map l_of_s6 (lcgs_of (frun no_vecs memo (fstore_of nb xs, []) h)))
+    end.
+
+  Definition run_smallest_angle (xs : list F) : res (list F) :=
+    match length xs with
+    | 6%nat => bind (smallest_angle (v3_of xs) (v3_of (skipn 3 xs)) None) (fun x => Ok [x])
+    | 9%nat => bind (smallest_angle (v3_of xs) (v3_of (skipn 3 xs)) (Some (v3_of (skipn 6 xs))))
+                    (fun x => Ok [x])
+    | _ => Err OtherError
+    end.
+
+  (* ---- the generated definitions ---- *)
+  Definition arr_of (l : list F) : arr F := mk_arr d0 l.
+
+  Definition gscatter (n r : nat) : option (arr F -> arr F) :=
+    match n, r with
+    | 1%nat, 0%nat => Some k_scatter_matrix_n1_r0 | 1%nat, 1%nat => Some k_scatter_matrix_n1_r1
+    | 1%nat, 2%nat => Some k_scatter_matrix_n1_r2
+    | 2%nat, 0%nat => Some k_scatter_matrix_n2_r0 | 2%nat, 1%nat => Some k_scatter_matrix_n2_r1
+    | 2%nat, 2%nat => Some k_scatter_matrix_n2_r2
+    | 3%nat, 0%nat => Some k_scatter_matrix_n3_r0 | 3%nat, 1%nat => Some k_scatter_matrix_n3_r1
+    | 3%nat, 2%nat => Some k_scatter_matrix_n3_r2
+    | _, _ => None
+    end.
+
+  Definition run_gen_scatter (axis : Z) (n : nat) (xs : list F) : res (list F) :=
+    match row_of_axis axis with
+    | Err e => Err e
+    | Ok r => match gscatter n r with
+              | None => Err OtherError
+              | Some f => Ok (arr_to_list 9 (f (arr_of xs)))
+              end
+    end.
+
+  Definition run_gen_pgr (axis : Z) (n : nat) (xs : list F) : res (list F) :=
+    let O := arr_of (firstn (9 * n) xs) in
+    let ev := fun _ : arr F => arr_of (skipn (9 * n) xs) in
+    let out (r : res (F * F * F)) := bind r (fun t => let '(P, G, Rn) := t in Ok [P; G; Rn]) in
+    match n with
+    | 1%nat => out (k_symmetry_pgr_n1 ev axis O) | 2%nat => out (k_symmetry_pgr_n2 ev axis O)
+    | 3%nat => out (k_symmetry_pgr_n3 ev axis O) | _ => Err OtherError
+    end.
+
+  Definition arr_eqb9 (a b : arr F) : bool := forallb (fun k => neqb (a k) (b k)) (seq 0 9).
+
+  Definition run_gen_coaxial (axis1 axis2 : Z) (n : nat) (xs : list F) : res (list F) :=
+    let O := arr_of (firstn (9 * n) xs) in
+    let rest := skipn (9 * n) xs in
+    let S1 := match row_of_axis axis1 with
+              | Ok r1 => match gscatter n r1 with Some f => f O | None => arr_of [] end
+              | Err _ => arr_of []
+              end in
+    let ev := fun m : arr F => if arr_eqb9 m S1 then arr_of (firstn 3 rest) else arr_of (skipn 3 rest) in
+    let out (r : res F) := bind r (fun x => Ok [x]) in
+    match n with
+    | 1%nat => out (k_coaxial_index_n1 ev axis1 axis2 O) | 2%nat => out (k_coaxial_index_n2 ev axis1 axis2 O)
+    | 3%nat => out (k_coaxial_index_n3 ev axis1 axis2 O) | _ => Err OtherError
+    end.
+
+  Definition run_gen_bingham (axis : Z) (n : nat) (xs : list F) : res (list F) :=
+    let O := arr_of (firstn (9 * n) xs) in
+    let rest := skipn (9 * n) xs in
+    let eh := fun _ : arr F => (arr_of (firstn 3 rest), arr_of (skipn 3 rest)) in
+    let out (r : res (arr F)) := bind r (fun a => Ok (arr_to_list 3 a)) in
+    match n with
+    | 1%nat => out (k_bingham_average_n1 eh axis O) | 2%nat => out (k_bingham_average_n2 eh axis O)
+    | 3%nat => out (k_bingham_average_n3 eh axis O) | _ => Err OtherError
+    end.
+
+  (* which = 0: called without axis arguments (n = 1 grain) *)
+  Definition run_gen_default (which : nat) (xs : list F) : res (list F) :=
+    let O := arr_of (firstn 9 xs) in
+    let rest := skipn 9 xs in
+    match which with
+    | 0%nat => let '(P, G, Rn) := k_symmetry_pgr_n1_default (fun _ => arr_of rest) O in Ok [P; G; Rn]
+    | 1%nat => Ok (arr_to_list 3 (k_bingham_average_n1_default
+                                   (fun _ => (arr_of (firstn 3 rest), arr_of (skipn 3 rest))) O))
+    | _ => let S1 := k_scatter_matrix_n1_r1 O in
+           bind (k_coaxial_index_n1_default
+                   (fun m => if arr_eqb9 m S1 then arr_of (firstn 3 rest) else arr_of (skipn 3 rest)) O)
+                (fun x => Ok [x])
+    end.
+
+  (* driver = 0: finite_strain(F); 1: finite_strain(F, driver=...) *)
+  Definition run_gen_fse (driver : nat) (xs : list F) : res (list F) :=
+    let Fa := arr_of (firstn 9 xs) in
+    let rest := skipn 9 xs in
+    let eh := fun _ : arr F => (arr_of (firstn 3 rest), arr_of (skipn 3 rest)) in
+    let '(v, ax) := match driver with 0%nat => k_finite_strain eh Fa | _ => k_finite_strain_driver eh Fa end in
+    Ok (v :: arr_to_list 3 ax).
+
+  (* the lower triangle of the matrix the generated finite_strain hands to LAPACK: the stand-in for LAPACK
+     copies three entries of its argument into the last column of V *)
+  Definition run_gen_lcg (xs : list F) : res (list F) :=
+    let Fa := arr_of xs in
+    let pick (i j k : nat) :=
+      snd (k_finite_strain (fun m => (m, mk_arr d0 [d0; d0; m i; d0; d0; m j; d0; d0; m k])) Fa) in
+    Ok (arr_to_list 3 (pick 0%nat 3%nat 4%nat) ++ arr_to_list 3 (pick 6%nat 7%nat 8%nat)).
+
+  Definition run_gen_angle (xs : list F) : res (list F) :=
+    match length xs with
+    | 6%nat => bind (k_smallest_angle (arr_of (firstn 3 xs)) (arr_of (skipn 3 xs))) (fun x => Ok [x])
+    | 9%nat => bind (k_smallest_angle_plane (arr_of (firstn 3 xs)) (arr_of (firstn 3 (skipn 3 xs)))
+                                            (arr_of (skipn 6 xs))) (fun x => Ok [x])
+    | _ => Err OtherError
+    end.
+
+  Definition run_gen_fse_angle (xs : list F) : res (list F) :=
+    match xs with
+    | [s] => Ok [k_angle_fse_simpleshear s]
     | _ => Err OtherError
     end.
 End Entry.
